@@ -527,8 +527,13 @@ func (e *Engine) checkLoopTerm(s *State, f *Frame, lp *loop) {
 			}
 		}
 	}
-	if c := e.contracts.loopDecreases(e, f.fn, lp.ordinal); c != "" {
-		ok = true // a written variant is checked by checkLoopInvariant on the back edge
+	if c := e.contracts.loopDecreases(e, f.fn, lp.ordinal); c != nil {
+		// a written variant: its value at the start of the iteration is recorded here and compared
+		// on the back edge (checkLoopInvariant): 0 <= V and V' < V
+		if le := f.loops[lp.header]; le != nil {
+			le.variant = e.evalSpecIntLoop(s, f, c, lp, nil)
+		}
+		return
 	}
 	goal := Bool(ok)
 	_ = reason
@@ -565,7 +570,11 @@ func (e *Engine) checkLoopInvariant(s *State, f *Frame, lp *loop, from *ssa.Basi
 		e.checkIterationEnsures(s, f, lp)
 	}
 	invs := e.contracts.loopInvariants(e, f.fn, lp.ordinal)
-	if len(invs) == 0 {
+	dec := e.contracts.loopDecreases(e, f.fn, lp.ordinal)
+	if entry || f.loops[lp.header] == nil || f.loops[lp.header].variant == nil {
+		dec = nil
+	}
+	if len(invs) == 0 && dec == nil {
 		return
 	}
 	// evaluate with header phis bound to the incoming edge values
@@ -605,6 +614,15 @@ func (e *Engine) checkLoopInvariant(s *State, f *Frame, lp *loop, from *ssa.Basi
 			name = f.chain + "/" + name
 		}
 		e.oblige(s, "INV", name, inv.text, lp.header.Instrs[0].Pos(), g)
+	}
+	if dec != nil {
+		v0 := f.loops[lp.header].variant
+		v1 := e.evalSpecIntLoop(s, f, dec, lp, vals)
+		name := e.loopKey(f.fn, lp) + "#TERM"
+		if f.chain != "" {
+			name = f.chain + "/" + name
+		}
+		e.oblige(s, "TERM", name, "loop variant "+dec.text+" is non-negative and decreases", lp.header.Instrs[0].Pos(), And(Le(Zero, v0), Lt(v1, v0)))
 	}
 	for _, in := range lp.header.Instrs {
 		p, ok := in.(*ssa.Phi)
@@ -651,6 +669,17 @@ func (e *Engine) evalSpecBoolLoop(s *State, f *Frame, x *specExpr, lp *loop, inc
 	r := e.evalSpec(env, x.ast)
 	if len(r.v) != 1 || r.v[0].S != SBool {
 		e.fail("loop invariant %q is not boolean", x.text)
+	}
+	return r.v[0]
+}
+
+// evalSpecIntLoop evaluates a written loop variant in the current state (header phis as bound by the caller).
+func (e *Engine) evalSpecIntLoop(s *State, f *Frame, x *specExpr, lp *loop, incoming map[*ssa.Phi]Value) *Term {
+	env := e.envForFrame(s, f, nil)
+	env.pkg = x.pkg
+	r := e.evalSpec(env, x.ast)
+	if len(r.v) != 1 || r.v[0].S != SInt {
+		e.fail("loop variant %q is not an integer", x.text)
 	}
 	return r.v[0]
 }
